@@ -169,6 +169,8 @@ def binop(ev, t, opn, a, b, inplace, ctx):
         norm = 'RAW'
     if opn == 'Div' and b.ncore is not None and a.vid is not None and b.ncore[0] == a.vid and b.ncore[2]:
         norm = ('UNIT', b.ncore[1])
+        # x / ||x||: invariant under a gain on x - the scale taint ('scale', p) ends here
+        deps = frozenset(d for d in deps if d[0] != 'scale')
     elif opn == 'Div' and b.ncore is not None and b.ncore[2] and a.vid is None and tracked(a):
         norm = 'RAW'
     dtype = None
